@@ -390,3 +390,21 @@ CASES += [
          edits=[(LI, '''        let _reservation = node.reserve_writer();
         node.helping.help(&who.helping, storage_addr, replacement)''', '''        node.helping.help(&who.helping, storage_addr, replacement)''')]),
 ]
+
+CASES += [
+    # revert of fix: 9fce248 (poison-tolerant lock acquisition in the RwLock<()> strategy)
+    dict(name='m-rwlock-expect-on-poison', kind='mutant', props=['C18', 'C13', 'C14'], expect=['C18', 'C13'],
+         edits=[(RW, 'let _guard = self.read().unwrap_or_else(PoisonError::into_inner);', 'let _guard = self.read().expect("We don\'t panic in here");'),
+                (RW, 'drop(self.write().unwrap_or_else(PoisonError::into_inner));', 'drop(self.write().expect("We don\'t panic in here"));'),
+                (RW, 'use std::sync::{PoisonError, RwLock};', 'use std::sync::RwLock;')]),
+    # wave-4 additive API: a DerefMut for Guard that lends the borrowed pointer mutably
+    dict(name='m-protection-borrow-mut', kind='mutant', props=['C01', 'C10'], expect=['C01', 'C10'],
+         edits=[(H, '''impl<T: RefCnt> Borrow<T> for HybridProtection<T> {''', '''impl<T: RefCnt> HybridProtection<T> {
+    pub(crate) fn ptr_mut(&mut self) -> &mut T {
+        &mut self.ptr
+    }
+}
+
+impl<T: RefCnt> Borrow<T> for HybridProtection<T> {''')]),
+]
+
